@@ -6,6 +6,7 @@ mod gen;
 mod imp;
 mod probe;
 mod refparse;
+mod selftest;
 mod sem;
 mod space;
 mod ucd;
@@ -33,6 +34,16 @@ fn main() {
         }
     };
     match args[1].as_str() {
+        "counts" => {
+            for name in ["K", "K0", "Q", "CL", "G", "GC", "CI", "AN", "U"] {
+                let sc = gen::scope(name);
+                let v: Vec<String> = (1..=7).map(|n| sc.count(n).to_string()).collect();
+                println!("{:3} {}", name, v.join(" "));
+            }
+        }
+        "selftest" => {
+            std::process::exit(selftest::run(&ucd));
+        }
         "list" => {
             for c in checks::all() {
                 println!("{}", c.id());
